@@ -371,7 +371,7 @@ PROPS = {
     'C07': dict(level='proof',
                 technique='Verus proof of extracted rlp::{len,bytes,uint,list} against the Yellow-Paper spec + Kani/CBMC pairings on the real functions',
                 claim='rlp::{len,bytes,uint,list} produce exactly the Yellow-Paper encoding for inputs of every length and value (Verus, unbounded); the canonical-form clauses (minimal length prefix, no wrapped single byte < 0x80, no leading zero in integers, 0 = empty string) are part of that spec; len and uint are additionally proved on the real code for all 2^64 x 2 resp. 2^256 inputs by Kani. rlp::iter and AccessList::rlp_encode are bounded stand-ins.',
-                note='Assumed: ethnum U256 / usize leading_zeros and to_be_bytes interface contracts (each cross-checked on the real code by a complete Kani harness in the same run), vstd Vec/slice model, total list payload fits usize, extractor rewrite rules R1-R4/R6. Decoder side (strict decoder accepts and returns the originals) follows from equality with the injective Yellow-Paper encoding; that lemma is argued in DESIGN.md, not machine-checked yet.',
+                note='Assumed: ethnum U256 / usize leading_zeros and to_be_bytes interface contracts (each cross-checked on the real code by a complete Kani harness in the same run), vstd Vec/slice model, total list payload fits usize, extractor rewrite rules R1-R4/R6. Decoder side: a spec-level strict decoder for string items and integers is defined in the Verus unit and lemmas prove dec_str(enc_str(b) ++ rest) == (b, rest), dec_uint(be_min(v)) == v, injectivity of enc_str, and that minimal big-endian bytes have no leading zero (machine-checked, pure mathematics over the spec); the same for nested lists (induction on nesting) is NOT machine-checked and is exercised only by the native strict decoder.',
                 explanation='Verus proves rlp::{len,bytes,uint,list} (bodies extracted from /repo each run) equal to the Yellow-Paper encoding for inputs of every length; strict-decoder lemmas are spec-level; Kani pairs give counterexamples and cross-check the assumed usize/U256 interface contracts.',
                 trusted=['U256/usize interface contracts assumed in the Verus prelude (cross-checked by xc_* Kani harnesses on the real code)',
                          'sum of item lengths fits usize (true of live allocations)']),
